@@ -171,6 +171,8 @@ def morton_expect(rep, inst, bits, h, where, rid):
                 # value bits above the coordinate type's width: 0, or the sign bit for signed types (0 on the non-negative domain)
                 good = (b == 0) or (signed and b == ('in', cj, w - 1))
             if not good:
+                if isinstance(b, tuple) and b[0] == 'top':
+                    raise AnalysisBroken("C14 %s: index bit %d is computed by operations the bit-provenance domain does not model (%s); cannot decide - re-confirm by reading" % (inst, pos, showbit(b, h)[:100]))
                 rep.fail(rid, inst, where, "index bit %d should be bit %d of coordinate %d, is %s" % (pos, i, j, showbit(b, h)), {"bit": pos})
                 return False
         else:
